@@ -140,8 +140,11 @@ def generate(rng, n, tier, stats):
             inputs = [ds] + others
             if fam == 'stack': op = ['stack', 'k', rand_labels(rng, len(inputs), rng.choice(['i', 'O']), 'shuf')]
             else:
-                if any(d not in a['dims'] for _, a in ds['vars']): continue     # documented error otherwise
-                op = ['concat', d]
+                # variables without the dimension are the same in every dataset (they are to be left unchanged)
+                for o_ in others:
+                    for (k1, a1), (k2, a2) in zip(ds['vars'], o_['vars']):
+                        if d not in a1['dims']: a2['flat'] = list(a1['flat'])
+                op = ['concat', r]         # by name or by position IN THE DATASET
         cases.append({'inputs': inputs, 'op': op})
     return cases
 
@@ -210,7 +213,10 @@ def per_variable(v, dss, op, key):
     if n == 'scalar_op': return ops.py_binop(op[1], op[2], v) if op[3] else ops.py_binop(op[1], v, op[2])
     if n == 'binop': return ops.py_binop(op[1], v, dict.__getitem__(dss[1], key)) if key in dss[1].keys() else 'absent'
     if n == 'stack': return D.stack([dict.__getitem__(x, key) for x in dss], axis=op[1], keys=[ops.py_label(k) for k in op[2]])
-    if n == 'concat': return D.concatenate([dict.__getitem__(x, key) for x in dss], axis=op[1])
+    if n == 'concat':
+        d = dname(op[1])
+        if d not in v.dims: return None
+        return D.concatenate([dict.__getitem__(x, key) for x in dss], axis=d)
 
 def observe_ds(ds):
     import props.c13 as c13
